@@ -598,6 +598,18 @@ fn compute_lookup_polys<
                 final_poly_vecs[slot + 1].values[row] = prev - sum;
             }
         }
+        // Adversarial strategy: start the running Sum of this table at -(Sum(end) - LDC(end)), so
+        // that the final value of the last partial polynomial is 0 whatever the looked-up pairs are.
+        #[cfg(feature = "verif_hooks")]
+        if crate::verif_hooks::knobs::get().lookup_sum_shift {
+            let fin = final_poly_vecs[num_partial_lookups].values[last_lu_row];
+            for row in last_lu_row..first_lut_row + 1 {
+                for slot in 1..num_partial_lookups + 1 {
+                    final_poly_vecs[slot].values[row] -= fin;
+                }
+            }
+            final_poly_vecs[num_partial_lookups].values[first_lut_row + 1] -= fin;
+        }
     }
 
     final_poly_vecs
